@@ -417,6 +417,9 @@ func (w *world) apply(s *txstate) {
 		case "drop-constraint":
 			t := w.tabs[op.table]
 			t.def = t.def.with(func(n *tdef) { n.dropCheck(op.name) })
+		case "drop-column":
+			t := w.tabs[op.table]
+			t.def = t.def.with(func(n *tdef) { n.dropCol(op.name) })
 		}
 	}
 	for _, op := range s.wlog {
@@ -529,4 +532,16 @@ func (d *tdef) dropCheck(name string) {
 		}
 	}
 	d.checks = kept
+}
+
+// dropCol removes a column from the definition (rows keep the value under the
+// name, which no definition refers to any more: column names are never reused).
+func (d *tdef) dropCol(name string) {
+	var kept []*sqlgen.Column
+	for _, c := range d.cols {
+		if c.Name != name {
+			kept = append(kept, c)
+		}
+	}
+	d.cols = kept
 }
